@@ -222,9 +222,10 @@ def run_unit(args):
         mod = importlib.import_module(modname)
         units = dict(mod.units())
         fn = units[unit_name]
-        models = mod.make_models()
+        models = mod.make_models_for(unit_name) if hasattr(mod, 'make_models_for') else mod.make_models()
         ctx = Ctx(unit_name, models, tier)
         ctx.known_ids = set(known_ids)
+        models.ctx = ctx
         try:
             fn(ctx)
         except Unsupported as e:
